@@ -570,8 +570,8 @@ func wrapMain(args []string) error {
 								if mode == "core" && !full && len(s.text) == maxN && maxN >= 3 && rng.Intn(2) != 0 {
 									continue
 								}
-								if mode == "core" && full && len(s.text) == maxN && maxN >= 4 && rng.Intn(3) != 0 {
-									continue // 2e7 paragraphs at length 4: a seeded third of the (config, width) combinations
+								if mode == "core" && full && len(s.text) == maxN && maxN >= 4 && rng.Intn(8) != 0 {
+									continue // 2e7 paragraphs at length 4: a seeded eighth of the (config, width) combinations (disk: the traces of the full product take > 60 GB)
 								}
 								cls := cls
 								if cls == "ls" {
